@@ -37,7 +37,27 @@ fn g41(r: &mut Rng, var: u8) -> Vec<u8> {
 }
 
 /// 1..3 control headers
+/// control headers, sometimes (1/6) with a parsable header that is not a control header in front of or
+/// behind them: such a request is refused as a whole (PARAMETER_ERROR, nothing actuated) and, for
+/// DIRECT_OPERATE_NR, not answered at all (S71)
 fn control_objects(r: &mut Rng, max_items: usize) -> Vec<u8> {
+    let o = control_headers(r, max_items);
+    if !r.chance(1, 6) {
+        return o;
+    }
+    let extra: &[u8] = *r.pick(&[&[0x3cu8, 0x02, 0x06][..], &[0x3c, 0x01, 0x06], &[0x01, 0x00, 0x06], &[0x1e, 0x00, 0x06], &[0x02, 0x00, 0x06]]);
+    if r.chance(1, 2) {
+        let mut out = extra.to_vec();
+        out.extend(o);
+        out
+    } else {
+        let mut out = o;
+        out.extend_from_slice(extra);
+        out
+    }
+}
+
+fn control_headers(r: &mut Rng, max_items: usize) -> Vec<u8> {
     let mut out = Vec::new();
     let nh = if r.chance(3, 4) { 1 } else { r.range(2, 3) };
     for _ in 0..nh {
@@ -447,7 +467,7 @@ impl<'a> G<'a> {
         let st = self.cfg_stimeout;
         let seq = self.next_seq();
         let mut sel = vec![ctrl(seq), 3];
-        let o = control_objects(&mut self.r, 3);
+        let o = control_headers(&mut self.r, 3);
         sel.extend(&o);
         self.line("@wf");
         self.last_note = Some("@wf".into());
@@ -471,6 +491,16 @@ impl<'a> G<'a> {
             left = left.saturating_sub(a).max(1);
             self.line("@wf");
             self.line(&format!("rx 1 {} {}", OUTSTATION, hex(&sel)));
+        }
+        if reps == 0 && self.r.chance(1, 4) {
+            // the session ends between the two steps (link error, next session on the same task): the OPERATE
+            // is the very first fragment of the new session and still inside the time window (S69)
+            let a = self.r.range(0, left.saturating_sub(1).max(1)).min(left.saturating_sub(1));
+            if a > 0 {
+                self.line(&format!("tick {a}"));
+            }
+            self.line("cut");
+            left = left.saturating_sub(a).max(1);
         }
         self.line(&format!("tick {left}"));
         let mut op = vec![ctrl(seq.wrapping_add(1) & 0x0F), 4];
